@@ -339,6 +339,38 @@ static PRes c08Once(const LPModel& M, const Truth& T, bool keepbounds, uint32_t 
             // the vertex is optimal for the relaxed reduced LP: feasible for the reduced LP within 1e-9 relative
          }
       }
+      if(rr.status == REF_UNBOUNDED)
+      {
+         // the same rounding in an objective coefficient (28/3 - 11 -> -1.6666666666666679 against a row coefficient 1.6666666666666665)
+         // makes a reduced LP exactly unbounded along a ray that improves the objective at a rate of 1e-15: no floating-point solver
+         // working with opttol would follow it.  Judge unboundedness by the best normalised ray: min c.d over the recession cone
+         // intersected with the box [-1,1]^n; the class is "unbounded" only if that rate exceeds 1e-9 * sum|c|.
+         LPModel D = Rm;
+         Q csum = 0;
+         for(int j = 0; j < D.n; j++)
+         {
+            D.lo[j] = isNInf(Rm.lo[j]) ? Q(-1) : Q(0);
+            D.up[j] = isPInf(Rm.up[j]) ? Q(1) : Q(0);
+            csum += qabs(Rm.obj[j]);
+         }
+         for(int i = 0; i < D.m; i++)
+         {
+            if(!isNInf(Rm.lhs[i])) D.lhs[i] = 0;
+            if(!isPInf(Rm.rhs[i])) D.rhs[i] = 0;
+         }
+         D.offset = 0;
+         RefResult rd = refSolve(D);
+         if(!rd.certified || rd.status != REF_OPTIMAL)
+         {
+            if(count) S.count("c08.reduced_not_certified");
+            break;
+         }
+         if(qabs(rd.objval) <= csum / Q(1000000000))
+         {
+            if(count) S.count("c08.reduced_unbounded_only_by_rounding");
+            break;
+         }
+      }
       if(rr.status != REF_OPTIMAL)
       {
          // reduced LP without optimum: the original must be of the same class
